@@ -84,6 +84,9 @@ pub enum Op {
         stop_after: Option<usize>,
         /// nested `find` on the same searcher from inside the closure
         nested: Option<usize>,
+        /// client crash: the closure panics at this call (unwinds through the library)
+        #[serde(default)]
+        panic_at: Option<usize>,
     },
     Stream(Box<StreamPart>),
     /// two iterators over the same searcher stepped alternately on one thread
